@@ -2544,10 +2544,24 @@ class Postprocessor:
                 return None
             return context.pages.get(fileid_with_ext)
 
+        # Pages on the path from the root to the page being expanded: an entry that
+        # leads back to one of them is listed but not expanded again.
+        ancestors: Set[FileId] = set()
+
         def iterate_ia(page: Page, result: Dict[str, SerializableType]) -> None:
             """Construct a tree of similar structure to toctree. Starting from root, identify ia object on page and recurse on its entries to build a tree. Includes all potential properties of an entry including title, URI, project name, and primary status."""
             if not isinstance(page.ast, n.Root):
                 return
+            if page.fileid in ancestors:
+                return
+            ancestors.add(page.fileid)
+            try:
+                expand_ia(page, result)
+            finally:
+                ancestors.discard(page.fileid)
+
+        def expand_ia(page: Page, result: Dict[str, SerializableType]) -> None:
+            assert isinstance(page.ast, n.Root)
 
             ia = page.ast.options.get("ia")
             if not isinstance(ia, List):
